@@ -146,6 +146,10 @@ def storeLine (st : StoreRun) (lineNo : Nat) (line : String) : Except String (St
   | "svcset" :: _ => .ok (st, [])
   | "svcdel" :: _ => .ok (st, [])
   | ["cachefail", on] => .ok ({ st with wfail := on == "on=1" }, [])
+  | "nopoller" :: _ =>
+    .ok ({ st with fails := st.fails + 2 },
+         [s!"PROPFAIL C11 background_poll_runs hist={st.hist} line={lineNo} no background poller took the tick",
+          s!"PROPFAIL C16 polled_like_any_other hist={st.hist} line={lineNo} no background poller took the tick"])
   | "cachedoc" :: rest =>
     -- one document handed to Cache.Write: its bytes against the model's rendering of its contents
     let fs := fields rest
@@ -384,7 +388,8 @@ def storeLine (st : StoreRun) (lineNo : Nat) (line : String) : Except String (St
               (((get "writes").splitOn "|").getLast?.bind parseDocL).map (fun d => d.map fun (n, sv, _) => (n, sv)) !=
                 some (snap.filterMap fun e => e.ent.map fun (sv, _, _) => (e.name, sv))
             then [s!"PROPFAIL C13 flush_whole_document {tag} writes={(get "writes").take 200} snap={showSnap snap}"] else []) ++
-          (if !pollFailed && s.hasCache && get "writes" == "-" && wantWrites != "-" then [s!"PROPFAIL C13 flush_after_poll {tag}"] else []) ++
+          (if !pollFailed && s.hasCache && get "writes" == "-" && wantWrites != "-" then
+            [s!"PROPFAIL C13 flush_after_poll {tag}", s!"PROPFAIL C11 cache_holds_same {tag} a poll installed a version and the cache was not rewritten"] else []) ++
           (if sortStrings requested == sortStrings shouldRequest then [] else [s!"DIVERGE poll_requests {tag} code={sortStrings requested} model={sortStrings shouldRequest}"]) ++
           (if okM == !pollFailed then [] else [s!"DIVERGE poll_result {tag}"]) ++
           cmpState s' "poll_state" ++
@@ -392,6 +397,17 @@ def storeLine (st : StoreRun) (lineNo : Nat) (line : String) : Except String (St
         let key := s!"poll:{get "kind"}:{if pollFailed then "fail" else "ok"}:mid={midKind}:drop{dropped.length}:exp{expiredItems.length}:upd{if stripWatchers snap == pre then 0 else 1}"
         .ok (mkOut st (some s') served' key outs)
       | _, _, _, _ => .error s!"line {lineNo}: bad poll"
+    | "failupd" =>
+      -- an updater whose builder rejects the initial value: reported as an error; the watcher and
+      -- the handle it took remain (the name stays pinned)
+      match unhexStr (get "n"), (get "now").toInt? with
+      | some n, some now =>
+        -- NewUpdater takes a handle and reads the current bytes through it to build the initial value
+        let s' := if known s n then (read (takeHandle s n).1 n now).1 else s
+        let outs := (if get "res" == "err" then [] else [s!"PROPFAIL C15 build_failure_reported {tag} n={get "n"} res={get "res"}"]) ++
+                    cmpState s' "failupd_state"
+        .ok (mkOut st (some s') st.served "failupd" outs)
+      | _, _ => .error s!"line {lineNo}: bad failupd"
     | "close" =>
       let want := if s.hasCache then showDoc (docOf s.m) else "-"
       let outs := (if s.hasCache && get "writes" == "-" then [s!"PROPFAIL C13 flush_at_shutdown {tag}"] else []) ++
